@@ -8,6 +8,7 @@ symbols constrained to the cell's value domain and are logged as events for the 
 encoder (conc.py).
 """
 import bisect
+import os
 import itertools
 import z3
 
@@ -35,6 +36,7 @@ def to_signed(v, bits):
     return v - (1 << bits) if v >> (bits - 1) else v
 
 
+LAST_ENGINE = None
 _sym_ctr = itertools.count()
 _frame_ctr = itertools.count(1)
 
@@ -389,10 +391,13 @@ class Engine:
         self.max_steps = max_steps
         self.max_paths = max_paths
         self.unwind = unwind
-        self.solver = z3.SimpleSolver()
+        self.solver = z3.Solver()
+        self.solver.set('timeout', int(os.environ.get('IRSYM_CHECK_TIMEOUT_MS', '4000')))
         self._pc_stack = []
         self._model_cache = None
         self.model_hits = 0
+        self.unknown_checks = 0
+        self.sym_domain = {}
         self._ipdom_cache = {}
         self.auto_merge = False
         self.nqueries = 0
@@ -628,9 +633,15 @@ class Engine:
         if extra is not None:
             s.pop()
         self.nqueries += 1
-        self.solver_time += time.time() - t0
+        dt = time.time() - t0
+        self.solver_time += dt
+        if dt > 2 and os.environ.get('IRSYM_DEBUG'):
+            print('   slow feasibility check %.1fs pc=%d result=%s' % (dt, len(st.pc), r), flush=True)
         if r == z3.unknown:
-            raise Unsupported('solver returned unknown')
+            # the per-check time limit was hit: treat the path as feasible (an over-approximation: more paths are
+            # explored, what is really reachable is decided by the global query / the obligation check)
+            self.unknown_checks += 1
+            return True
         return r == z3.sat
 
     def model(self, st, extra=None):
@@ -649,12 +660,21 @@ class Engine:
         """All feasible concrete values of term v under st.pc (<= limit)."""
         vals = []
         s = self.solver
+        # cheap routes first: a merged pointer is an if-then-else tree over constants (its leaves are the
+        # candidates); a term over read symbols with recorded finite domains is evaluated for each combination
+        lv = ite_leaves(v) if not isinstance(v, int) else None
+        if lv is None and not isinstance(v, int):
+            lv = self.candidates(v)
+        if lv is not None and len(lv) <= limit:
+            return [x for x in sorted(lv) if self.feasible(st, v == x)]
         self._sync(st.pc)
         s.push()
         try:
             while True:
                 r = s.check()
                 self.nqueries += 1
+                if r == z3.unknown:
+                    raise Unsupported('solver time limit while enumerating the values of an address/selector')
                 if r != z3.sat:
                     break
                 x = s.model().eval(v, model_completion=True).as_long()
@@ -1049,6 +1069,9 @@ class Engine:
         value/outcome forks) and merged there, so paths do not multiply."""
         parked = []
         work = [st]
+        self.stats['execs'] = self.stats.get('execs', 0) + 1
+        global LAST_ENGINE
+        LAST_ENGINE = self
         while work:
             s = work.pop()
             s.stop = stop
@@ -1759,6 +1782,11 @@ class Engine:
                 ow = env.other_writes.get(addr)
                 if ow is None or ow[2] != size:
                     raise EngineError('invalid-access', 'read of foreign cell %#x never written (or size mismatch) %s' % (addr, self.loc(ins)))
+                dom = self._domain_set(None, ow, size)
+                if dom is not None and len(dom) == 1:
+                    v1 = next(iter(dom))
+                    self.emit(st, kind, addr, size, v1, None, ordering, atomic, ins)
+                    return v1
                 s = fresh('r', size * 8)
                 self.emit(st, kind, addr, size, s, None, ordering, atomic, ins)
                 self._domain(st, s, None, ow, size)
@@ -1770,6 +1798,12 @@ class Engine:
             if ow is not None:
                 if ow[2] != size:
                     raise Unsupported('mixed-size access to shared cell %#x' % addr)
+                dom = self._domain_set(own, ow, size)
+                if dom is not None and len(dom) == 1:
+                    # every write any thread can make to this cell stores the same value: no symbol needed
+                    v1 = next(iter(dom))
+                    self.emit(st, kind, addr, size, v1, None, ordering, atomic, ins)
+                    return v1
                 s = fresh('r', size * 8)
                 self.emit(st, kind, addr, size, s, None, ordering, atomic, ins)
                 self._domain(st, s, own, ow, size)
@@ -1779,10 +1813,11 @@ class Engine:
             self.emit(st, kind, addr, size, own, None, ordering, atomic, ins, local=True)
         return own
 
-    def _domain(self, st, s, own, ow, size):
+    def _domain_set(self, own, ow, size):
+        """Set of concrete values a read of the cell can return (None: unknown / unbounded)."""
         vals, top, _ = ow
         if top:
-            return
+            return None
         opts = set(vals)
         if own is not None:
             if is_conc(own):
@@ -1792,14 +1827,54 @@ class Engine:
             else:
                 lv = ite_leaves(own)
                 if lv is None:
-                    return
+                    return None
                 opts |= lv
-        if not opts:
+        return opts or None
+
+    def _domain(self, st, s, own, ow, size):
+        opts = self._domain_set(own, ow, size)
+        if opts is None:
             return
+        self.sym_domain[s.get_id()] = (s, frozenset(opts))
         if len(opts) == 1:
             st.pc.append(s == next(iter(opts)))
         else:
             st.pc.append(z3.Or(*[s == v for v in sorted(opts)]))
+
+    def candidates(self, v, limit=48):
+        """Values the term can take when each of its symbols ranges over its recorded finite domain (None if
+        some symbol has no such domain): candidate enumeration without the solver."""
+        syms = []
+        seen = set()
+        stack = [v]
+        while stack:
+            x = stack.pop()
+            i = x.get_id()
+            if i in seen:
+                continue
+            seen.add(i)
+            if len(seen) > 3000:
+                return None
+            if z3.is_const(x) and x.decl().kind() == z3.Z3_OP_UNINTERPRETED:
+                d = self.sym_domain.get(i)
+                if d is None:
+                    return None
+                syms.append(d)
+            else:
+                stack.extend(x.children())
+        total = 1
+        for _, dom in syms:
+            total *= len(dom)
+            if total > limit:
+                return None
+        out = set()
+        for combo in itertools.product(*[sorted(dom) for _, dom in syms]):
+            sub = [(sym, z3.BitVecVal(val, sym.size())) for (sym, _), val in zip(syms, combo)]
+            r = simp(z3.substitute(v, *sub)) if sub else simp(v)
+            if not isinstance(r, int):
+                return None
+            out.add(r)
+        return out
 
     def write_cell(self, st, addr, size, v, ordering, atomic, ins, kind='W'):
         env = self.env
